@@ -5,6 +5,7 @@ import (
 	"fmt"
 	"net"
 	"runtime"
+	"sort"
 	"strings"
 	"sync"
 	"time"
@@ -153,6 +154,7 @@ func revisionRepresentatives() []int {
 			out = append(out, v)
 		}
 	}
+	sort.Ints(out)
 	return out
 }
 
